@@ -296,4 +296,29 @@ CATALOGUE = [
                  UVLPythonParser.DivExpressionContext: ASTOperation.DIV,
                  UVLPythonParser.MulExpressionContext: ASTOperation.MUL}
         operator = next((op for cls_, op in table.items() if isinstance(ctc_node, cls_)), None)"""),
+    # ---- C04 ------------------------------------------------------------------------------------
+    dict(id="c04-lexer-listener-removed", props=["C04"], file=TR + "uvl_reader.py", rule="C04-ERRORS",
+         old="        lexer.removeErrorListeners()\n        lexer.addErrorListener(error_listener)\n", new=""),
+    dict(id="c04-errors-only-logged", props=["C04"], file=TR + "uvl_reader.py", rule="C04-ERRORS",
+         old='            raise FlamaException("Parsing failed due to syntax errors.")', new='            logging.error("Parsing failed due to syntax errors.")'),
+    dict(id="c04-optional-first-child-only", props=["C04"], file=TR + "uvl_reader.py", rule="C04-DENOTES",
+         old="                for child in childs:\n                    feature.add_relation(Relation(feature, [child], 0, 1))",
+         new="                for child in childs[:1]:\n                    feature.add_relation(Relation(feature, [child], 0, 1))"),
+    dict(id="c04-avg-second-arg-lost", props=["C04"], file=TR + "uvl_reader.py", rule="C04-DENOTES",
+         old="                node = Node(ASTOperation.AVG, Node(attribute_literal), Node(feature_literal))",
+         new="                node = Node(ASTOperation.AVG, Node(attribute_literal))"),
+    dict(id="c04-float-as-int", props=["C04"], file=TR + "uvl_reader.py", rule="C04-DENOTES",
+         old="            value = float(value_context.FLOAT().getText())", new="            value = int(float(value_context.FLOAT().getText()))"),
+    dict(id="c04-bool-always-true", props=["C04"], file=TR + "uvl_reader.py", rule="C04-DENOTES",
+         old='            value = value_context.BOOLEAN().getText() == "true"', new='            value = bool(value_context.BOOLEAN().getText())'),
+    dict(id="c04-binary-operands-swapped", props=["C04", "C01"], file=TR + "uvl_reader.py", rule="C0",
+         old="        left_constraint = context.constraint(0)\n        right_constraint = context.constraint(1)",
+         new="        left_constraint = context.constraint(1)\n        right_constraint = context.constraint(0)"),
+    dict(id="c04-mul-div-swapped", props=["C04", "C01"], file=TR + "uvl_reader.py", rule="C0",
+         old="        elif isinstance(ctc_node, UVLPythonParser.DivExpressionContext):\n            operator = ASTOperation.DIV",
+         new="        elif isinstance(ctc_node, UVLPythonParser.DivExpressionContext):\n            operator = ASTOperation.MUL"),
+    dict(id="c04-abstract-false-still-abstract", props=["C04"], file=TR + "uvl_reader.py", expect="silent",
+         old='                if key == "abstract" and (value is None or value):', new='                if key == "abstract" and (value is None or value is True):'),
+    dict(id="c04-stray-char-negative-only", props=["C04"], file=TR + "uvl_reader.py", rule="C04-ERRORS",
+         old="        self.errors.append(error_msg)", new="        if 'token recognition' not in msg:\n            self.errors.append(error_msg)"),
 ]
